@@ -179,7 +179,23 @@ def extract_pipeline(ctx, qual=LUA + ':LuaFormatterWriter._get_code_for_spaces')
         s_ = Sub(st, pat, parts, guard, flags)
         s_.repl_expr = repl_e
         subs.append(s_)
-    subs.sort(key=lambda s: (s.node.lineno, s.node.col_offset))
+    # statement order of the function body (spliced statements share the
+    # line of the call they replaced: line numbers do not order them)
+    order = {}
+
+    def number(stmts):
+        for st2 in stmts:
+            order[id(st2)] = len(order)
+            for fld in ('body', 'orelse', 'finalbody'):
+                sub = getattr(st2, fld, None)
+                if isinstance(sub, list) and not isinstance(
+                        st2, (ast.FunctionDef, ast.AsyncFunctionDef,
+                              ast.ClassDef)):
+                    number(sub)
+            for h in getattr(st2, 'handlers', []) or []:
+                number(h.body)
+    number(f.node.body)
+    subs.sort(key=lambda s: order.get(id(s.node), 1 << 30))
     rets = [n for n in walk_own(f.node) if isinstance(n, ast.Return)]
     returns_var = all(isinstance(r.value, ast.Name) and r.value.id == var
                       for r in rets) and bool(rets)
